@@ -187,14 +187,40 @@ func (e *Engine) verifyFunction(c *Contract, init *State) (res *FuncResult) {
 			resArgs = []*Term{r}
 		}
 	}
-	for _, cl := range c.Ensures {
-		g := e.evalClause(nil, cl, args, resArgs, out, entry, pcOut)
-		n0 := len(e.obls)
-		e.addObl(nil, "ensures", cl.Label, cl.Props, pcOut, g, fmt.Sprintf("%s:%d", strings.TrimPrefix(c.File, "/repo/"), cl.Line))
-		for _, o := range e.obls[n0:] {
-			o.contract = c
-			o.clause = cl
+	// postconditions are checked separately on every return path (the state
+	// and the result of one path are far simpler than their merge)
+	rets := e.topRets
+	perPath := len(rets) > 1 && len(rets) <= 40
+	checkEnsures := func(suffix string, pcR *Term, stR *State, resR []*Term) {
+		cargsR := args
+		if len(c.captures) > 0 {
+			cargsR = append(append([]*Term{}, args[:len(fn.Params)]...), e.captureVals(c, fn, bindings, stR)...)
 		}
+		for _, cl := range c.Ensures {
+			g := e.evalClause(nil, cl, cargsR, resR, stR, entry, pcR)
+			n0 := len(e.obls)
+			e.addObl(nil, "ensures", cl.Label+suffix, cl.Props, pcR, g, fmt.Sprintf("%s:%d", strings.TrimPrefix(c.File, "/repo/"), cl.Line))
+			for _, o := range e.obls[n0:] {
+				o.contract = c
+				o.clause = cl
+			}
+		}
+	}
+	if perPath {
+		for k, rt := range rets {
+			var resR []*Term
+			if rt.val != nil {
+				if rt.val.Op == "tuple" {
+					resR = rt.val.Elems
+				} else {
+					resR = []*Term{rt.val}
+				}
+			}
+			stR := rt.st.withVals(st.vals)
+			checkEnsures(fmt.Sprintf("@ret%d", k), rt.pc, stR, resR)
+		}
+	} else {
+		checkEnsures("", pcOut, out, resArgs)
 	}
 	// automatic postcondition: results do not point to package-level objects
 	// (objects allocated by package initialisation).  Callers rely on it to
